@@ -473,6 +473,15 @@ def main():
                  "cmd": "coqc props/C03.v", "log": build_err.log, "ok": False}
     else:
         props = C.compile_props(CID)
+    # the obligations about the TRANSLATED source, re-checked against this run's source tree
+    priv = R.private_gen_check(CID)
+    props = R.merge_private(CID, props, priv)
+    translator_errors = priv["errors"]
+    for te in translator_errors:
+        print("TRANSLATE-ERROR %s" % te[:300])
+    if not props["ok"]:
+        print("%s: proof obligations discharged %d/%d (broken: see evidence / replay)" % (
+            CID, props["discharged"], props["obligations"]))
 
     n_rand = 30000 if tier == "quick" else 2500000
     procs = R.nprocs(tier)
@@ -499,7 +508,9 @@ def main():
     for payload, concrete in sorted(total["diffs"], key=lambda pc: (not pc[1],)):
         verdict.violation(payload, concrete=concrete)
     if (not props["ok"] or not have_oracle) and not verdict.violations:
-        verdict.violation({"kind": "broken proof obligation", "theorem_file": "coq/props/C03.v",
+        verdict.violation({"kind": ("translator abort (harness/gen_rd_add.py / gen_rd_methods.py reject the source: "
+                                    "the model is no longer shown to be the code) -- " + "; ".join(translator_errors)[:600])
+                           if translator_errors else "broken proof obligation", "theorem_file": "coq/props/C03.v",
                            "theorems": props["theorems"], "discharged": props["discharged"],
                            "input": None, "log_tail": props["log"][-3000:]}, concrete=False)
     rc = verdict.finish()
@@ -539,6 +550,12 @@ def main():
                                       "weekday n with |n| > %d: model vs implementation only (the counting spec "
                                       "is linear in |n|)" % SPEC_N_LIMIT],
         "known_findings_hit": verdict.known_hits,
+        "translated_source": {"translator_errors": translator_errors,
+                              "gen_obligations": [t for t in props["theorems"] if "_gen_" in t],
+                              "private_recheck": "cached result for identical inputs" if priv.get("cached") else "compiled in this run",
+                              "what": "gen/RdAddGen.v + gen/RdMethodsGen.v are regenerated from the source by the "
+                                      "fail-closed translators harness/gen_rd_add.py / gen_rd_methods.py; the "
+                                      "*_gen_* theorems prove generated = hand model for all inputs"},
         "anchor_coverage_of_one_shard": dict(cov_summary, note="expected missing: 173 (ValueError for non-integer "
                                              "years/months), 199 (warning for non-integer absolute values), 363 "
                                              "(NotImplemented for non-date operands) -- floats and non-dates are "
